@@ -99,6 +99,17 @@ pub proof fn lemma_msum_sub<K, S>(m0: Map<K, S>, m1: Map<K, S>, f: spec_fn(S) ->
         }
     }
 }
+pub proof fn lemma_msum_delta<K, S>(m0: Map<K, S>, m1: Map<K, S>, f: spec_fn(S) -> nat, q: K)
+    requires m1.dom().subset_of(m0.dom()), m0.contains_key(q),
+        forall|k: K| k != q && m1.contains_key(k) ==> f(#[trigger] m1[k]) == f(m0[k]),
+        forall|k: K| k != q && m0.contains_key(k) && !m1.contains_key(k) ==> f(#[trigger] m0[k]) == 0,
+        m1.contains_key(q) ==> f(m1[q]) <= f(m0[q]),
+    ensures msum(m1, f) + (f(m0[q]) - (if m1.contains_key(q) { f(m1[q]) } else { 0 })) == msum(m0, f),
+{
+    lemma_msum_remove(m0, f, q);
+    if m1.contains_key(q) { lemma_msum_remove(m1, f, q); } else { assert(m1.remove(q) =~= m1); }
+    lemma_msum_sub(m0.remove(q), m1.remove(q), f);
+}
 // ASSUMED specification of HashMap::retain (vstd has none): the predicate is applied once to every entry with the entry's value behind the
 // &mut; entries for which it returns false are removed, the others keep the value the predicate left behind the reference
 pub assume_specification<K, V, S, A: std::alloc::Allocator, F: FnMut(&K, &mut V) -> bool> [HashMap::<K, V, S, A>::retain] (m: &mut HashMap<K, V, S, A>, f: F)
@@ -120,265 +131,365 @@ impl<T> Route<T> {
     #[verifier::external_body] pub fn scheme(&self) -> (r: Option<&str>) ensures opt_chars(r) == rscheme(*self) { unimplemented!() }
 }
 pub open spec fn ids_has(ids: Set<String>, id: Seq<char>) -> bool { exists|k: String| k@ == id && ids.contains(k) }
-// removal laws shared by all layers, over the "stored routes" predicate of a layer
-pub open spec fn removed_law<T>(h0: spec_fn(RouteRef<T>) -> bool, h1: spec_fn(RouteRef<T>) -> bool, id: Seq<char>, r: Option<RouteRef<T>>) -> bool {
-    &&& forall|y: RouteRef<T>| #[trigger] h1(y) <==> h0(y) && rid(*y) != id
-    &&& r matches Some(x) ==> h0(x) && rid(*x) == id
-    &&& r is None ==> forall|y: RouteRef<T>| #[trigger] h0(y) ==> rid(*y) != id
+
+// ---- the abstract view every layer offers: an invariant, the set of stored routes, and its (possibly stale, never too small) counter
+pub trait Store<T>: Sized {
+    spec fn wf(&self) -> bool;
+    spec fn holds(&self, x: RouteRef<T>) -> bool;
+    spec fn cnt(&self) -> nat;
 }
-pub open spec fn batch_law<T>(h0: spec_fn(RouteRef<T>) -> bool, h1: spec_fn(RouteRef<T>) -> bool, ids: Set<String>) -> bool {
-    forall|y: RouteRef<T>| #[trigger] h1(y) <==> h0(y) && !ids_has(ids, rid(*y))
+pub open spec fn holds_id<T, S: Store<T>>(v: S, id: Seq<char>) -> bool { exists|y: RouteRef<T>| #[trigger] v.holds(y) && rid(*y) == id }
+pub open spec fn uniq<T, S: Store<T>>(v: S) -> bool {
+    forall|x: RouteRef<T>, y: RouteRef<T>| #[trigger] v.holds(x) && #[trigger] v.holds(y) && rid(*x) == rid(*y) ==> x == y
 }
-pub open spec fn uniq_ids<T>(h: spec_fn(RouteRef<T>) -> bool) -> bool {
-    forall|x: RouteRef<T>, y: RouteRef<T>| #[trigger] h(x) && #[trigger] h(y) && rid(*x) == rid(*y) ==> x == y
+// the laws of the statement, per operation (v0 before, v1 after)
+pub open spec fn inserted_rel<T, S: Store<T>>(v0: S, v1: S, rt: RouteRef<T>) -> bool {
+    &&& v1.wf() && v1.cnt() == v0.cnt() + 1
+    &&& forall|x: RouteRef<T>| #![trigger v1.holds(x)] #![trigger v0.holds(x)] v1.holds(x) <==> v0.holds(x) || x == rt
 }
-// the contract of a lower layer (the same contract is verified on that layer when it is itself under contract in this unit)
-macro_rules! sub_store_shim {
-    ($name:ident) => {
-        verus! {
-        #[verifier::external_body] #[verifier::accept_recursive_types(T)] pub struct $name<T> { h: std::marker::PhantomData<T> }
-        impl<T> $name<T> {
-            pub uninterp spec fn wf(&self) -> bool;
-            pub uninterp spec fn holds(&self, x: RouteRef<T>) -> bool;
-            pub uninterp spec fn cnt(&self) -> nat;
-            pub open spec fn hs(&self) -> spec_fn(RouteRef<T>) -> bool { |x: RouteRef<T>| self.holds(x) }
-            #[verifier::external_body]
-            pub fn new(config: Arc<RouterConfig>) -> (r: Self) ensures r.wf(), r.cnt() == 0, forall|x: RouteRef<T>| !r.holds(x) { unimplemented!() }
-            #[verifier::external_body]
-            pub fn insert(&mut self, route: RouteRef<T>)
-                requires old(self).wf(), old(self).cnt() < usize::MAX, forall|x: RouteRef<T>| old(self).holds(x) ==> rid(*x) != rid(*route),
-                ensures final(self).wf(), final(self).cnt() == old(self).cnt() + 1, forall|x: RouteRef<T>| final(self).holds(x) <==> old(self).holds(x) || x == route,
-            { unimplemented!() }
-            #[verifier::external_body]
-            pub fn remove(&mut self, id: &str) -> (r: Option<RouteRef<T>>)
-                requires old(self).wf(),
-                ensures final(self).wf(), removed_law(old(self).hs(), final(self).hs(), id@, r),
-                    r is Some ==> old(self).cnt() >= 1 && final(self).cnt() == old(self).cnt() - 1, r is None ==> final(self).cnt() == old(self).cnt(),
-            { unimplemented!() }
-            #[verifier::external_body]
-            pub fn batch_remove(&mut self, ids: &HashSet<String>) -> (r: bool)
-                requires old(self).wf(),
-                ensures final(self).wf(), batch_law(old(self).hs(), final(self).hs(), ids@), final(self).cnt() == old(self).cnt(),
-            { unimplemented!() }
-            #[verifier::external_body]
-            pub fn len(&self) -> (r: usize) ensures r == self.cnt() { unimplemented!() }
-            #[verifier::external_body]
-            pub fn is_empty(&self) -> (r: bool) ensures r == (self.cnt() == 0) { unimplemented!() }
-            // consequences of the lower layer's invariant (each is part of / follows from wf() where that layer is verified)
-            #[verifier::external_body]
-            pub proof fn lemma_wf(&self) requires self.wf() ensures uniq_ids(self.hs()), self.cnt() == 0 ==> forall|x: RouteRef<T>| !self.holds(x), self.cnt() <= usize::MAX {}
+pub open spec fn removed_rel<T, S: Store<T>>(v0: S, v1: S, id: Seq<char>, r: Option<RouteRef<T>>) -> bool {
+    &&& v1.wf()
+    &&& forall|y: RouteRef<T>| #![trigger v1.holds(y)] #![trigger v0.holds(y)] v1.holds(y) <==> v0.holds(y) && rid(*y) != id
+    // a removed rule is returned by the removal ...
+    &&& r matches Some(x) ==> v0.holds(x) && rid(*x) == id && v0.cnt() >= 1 && v1.cnt() == v0.cnt() - 1
+    // ... and None means there was none
+    &&& r is None ==> !holds_id(v0, id) && v1.cnt() == v0.cnt()
+}
+// the same without naming the returned route (what a caller that discards the result still knows)
+pub open spec fn removed_rel2<T, S: Store<T>>(v0: S, v1: S, id: Seq<char>) -> bool {
+    &&& v1.wf()
+    &&& forall|y: RouteRef<T>| #![trigger v1.holds(y)] #![trigger v0.holds(y)] v1.holds(y) <==> v0.holds(y) && rid(*y) != id
+    &&& if holds_id(v0, id) { v0.cnt() >= 1 && v1.cnt() == v0.cnt() - 1 } else { v1.cnt() == v0.cnt() }
+}
+pub open spec fn batched_rel<T, S: Store<T>>(v0: S, v1: S, ids: Set<String>) -> bool {
+    &&& v1.wf() && v1.cnt() == v0.cnt()
+    &&& forall|y: RouteRef<T>| #![trigger v1.holds(y)] #![trigger v0.holds(y)] v1.holds(y) <==> v0.holds(y) && !ids_has(ids, rid(*y))
+}
+pub proof fn lemma_removed_rel2<T, S: Store<T>>(v0: S, v1: S, id: Seq<char>, r: Option<RouteRef<T>>)
+    requires removed_rel(v0, v1, id, r),
+    ensures removed_rel2(v0, v1, id), r is Some <==> holds_id(v0, id),
+{}
+// the contract of a lower layer (the same contract is verified on the layers that are under contract in this unit)
+#[verifier::external_body] #[verifier::accept_recursive_types(T)] pub struct Sub<T> { h: std::marker::PhantomData<T> }
+impl<T> Store<T> for Sub<T> {
+    uninterp spec fn wf(&self) -> bool;
+    uninterp spec fn holds(&self, x: RouteRef<T>) -> bool;
+    uninterp spec fn cnt(&self) -> nat;
+}
+impl<T> Sub<T> {
+    #[verifier::external_body]
+    pub fn new(config: Arc<RouterConfig>) -> (r: Self) ensures r.wf(), r.cnt() == 0, forall|x: RouteRef<T>| !r.holds(x) { unimplemented!() }
+    #[verifier::external_body]
+    pub fn insert(&mut self, route: RouteRef<T>)
+        requires old(self).wf(), old(self).cnt() < usize::MAX, forall|x: RouteRef<T>| old(self).holds(x) ==> rid(*x) != rid(*route),
+        ensures inserted_rel(*old(self), *final(self), route),
+    { unimplemented!() }
+    #[verifier::external_body]
+    pub fn remove(&mut self, id: &str) -> (r: Option<RouteRef<T>>) requires old(self).wf() ensures removed_rel(*old(self), *final(self), id@, r) { unimplemented!() }
+    #[verifier::external_body]
+    pub fn batch_remove(&mut self, ids: &HashSet<String>) -> (r: bool) requires old(self).wf() ensures batched_rel(*old(self), *final(self), ids@) { unimplemented!() }
+    #[verifier::external_body]
+    pub fn len(&self) -> (r: usize) ensures r == self.cnt() { unimplemented!() }
+    #[verifier::external_body]
+    pub fn is_empty(&self) -> (r: bool) ensures r == (self.cnt() == 0) { unimplemented!() }
+}
+// consequences of the lower layer's invariant (part of / implied by wf() on the layers verified here: see lemma_*_wf below)
+#[verifier::external_body]
+pub proof fn lemma_sub_wf<T>(s: Sub<T>) requires s.wf() ensures uniq(s), s.cnt() == 0 ==> forall|x: RouteRef<T>| !s.holds(x), s.cnt() <= usize::MAX {}
+
+// ---- generic reasoning about a map of buckets (HashMap<String, _> buckets and the regex tree's pattern -> bucket map alike)
+pub open spec fn cnt_of<T, S: Store<T>>() -> spec_fn(S) -> nat { |s: S| s.cnt() }
+pub open spec fn map_holds<K, T, S: Store<T>>(m: Map<K, S>, x: RouteRef<T>) -> bool { exists|k: K| m.contains_key(k) && #[trigger] m[k].holds(x) }
+pub open spec fn map_holds_id<K, T, S: Store<T>>(m: Map<K, S>, id: Seq<char>) -> bool { exists|k: K, y: RouteRef<T>| m.contains_key(k) && #[trigger] m[k].holds(y) && rid(*y) == id }
+pub open spec fn map_wf<K, T, S: Store<T>>(m: Map<K, S>) -> bool { forall|k: K| m.contains_key(k) ==> (#[trigger] m[k]).wf() }
+// ids are unique across the buckets and no route sits in two buckets
+pub open spec fn map_uniq<K, T, S: Store<T>>(m: Map<K, S>) -> bool {
+    forall|k1: K, k2: K, x: RouteRef<T>, y: RouteRef<T>| m.contains_key(k1) && m.contains_key(k2) && #[trigger] m[k1].holds(x) && #[trigger] m[k2].holds(y) && rid(*x) == rid(*y) ==> x == y && k1 == k2
+}
+// bucket-key consistency: what being filed under key k says about a route
+pub open spec fn map_keyed<K, T, S: Store<T>>(m: Map<K, S>, kf: spec_fn(K, RouteRef<T>) -> bool) -> bool {
+    forall|k: K, x: RouteRef<T>| m.contains_key(k) && #[trigger] m[k].holds(x) ==> kf(k, x)
+}
+// one bucket (existing or fresh) received the route
+pub proof fn lemma_map_inserted<K, T, S: Store<T>>(m0: Map<K, S>, m1: Map<K, S>, key: K, rt: RouteRef<T>, kf: spec_fn(K, RouteRef<T>) -> bool)
+    requires map_wf(m0), map_keyed(m0, kf), kf(key, rt), m1.contains_key(key), m1 == m0.insert(key, m1[key]), m1[key].wf(),
+        forall|x: RouteRef<T>| #![trigger m1[key].holds(x)] m1[key].holds(x) <==> (m0.contains_key(key) && m0[key].holds(x)) || x == rt,
+        m1[key].cnt() == (if m0.contains_key(key) { m0[key].cnt() } else { 0 }) + 1,
+    ensures map_wf(m1), map_keyed(m1, kf), msum(m1, cnt_of::<T, S>()) == msum(m0, cnt_of::<T, S>()) + 1,
+        forall|x: RouteRef<T>| #![trigger map_holds(m1, x)] #![trigger map_holds(m0, x)] map_holds(m1, x) <==> map_holds(m0, x) || x == rt,
+{
+    let f = cnt_of::<T, S>(); let v = m1[key];
+    lemma_msum_insert(m0, f, key, v);
+    if m0.contains_key(key) { lemma_msum_remove(m0, f, key); } else { assert(m0.remove(key) =~= m0); }
+    assert forall|k: K| m1.contains_key(k) implies (#[trigger] m1[k]).wf() by { if k != key { assert(m0.contains_key(k) && m0[k] == m1[k]); } }
+    assert forall|k: K, x: RouteRef<T>| m1.contains_key(k) && #[trigger] m1[k].holds(x) implies kf(k, x) by {
+        if k != key { assert(m0.contains_key(k) && m0[k] == m1[k]); assert(m0[k].holds(x)); } else if x != rt { assert(m0[key].holds(x)); }
+    }
+    assert forall|x: RouteRef<T>| #![trigger map_holds(m1, x)] #![trigger map_holds(m0, x)] map_holds(m1, x) <==> map_holds(m0, x) || x == rt by {
+        if map_holds(m1, x) { let k = choose|k: K| m1.contains_key(k) && #[trigger] m1[k].holds(x); if k != key { assert(m0.contains_key(k) && m0[k] == m1[k]); assert(m0[k].holds(x)); } else if x != rt { assert(m0[key].holds(x)); } }
+        if map_holds(m0, x) { let k = choose|k: K| m0.contains_key(k) && #[trigger] m0[k].holds(x); assert(m1.contains_key(k)); if k != key { assert(m1[k] == m0[k]); } assert(m1[k].holds(x)); }
+        if x == rt { assert(m1[key].holds(x)); }
+    }
+}
+// remove(id) was applied to every bucket; only buckets that are empty afterwards may have been dropped
+pub open spec fn entries_removed<K, T, S: Store<T>>(m0: Map<K, S>, m1: Map<K, S>, id: Seq<char>) -> bool {
+    &&& forall|k: K| #[trigger] m1.contains_key(k) ==> m0.contains_key(k) && removed_rel2(m0[k], m1[k], id)
+    &&& forall|k: K| m0.contains_key(k) && !#[trigger] m1.contains_key(k) ==> exists|v1: S| #[trigger] removed_rel2(m0[k], v1, id) && v1.cnt() == 0
+}
+pub proof fn lemma_map_removed<K, T, S: Store<T>>(m0: Map<K, S>, m1: Map<K, S>, id: Seq<char>, kf: spec_fn(K, RouteRef<T>) -> bool)
+    requires entries_removed(m0, m1, id), map_wf(m0), map_uniq(m0), map_keyed(m0, kf),
+        forall|v: S| v.wf() && v.cnt() == 0 ==> forall|x: RouteRef<T>| !#[trigger] v.holds(x),
+    ensures map_wf(m1), map_keyed(m1, kf),
+        forall|y: RouteRef<T>| #![trigger map_holds(m1, y)] #![trigger map_holds(m0, y)] map_holds(m1, y) <==> map_holds(m0, y) && rid(*y) != id,
+        msum(m1, cnt_of::<T, S>()) + (if map_holds_id(m0, id) { 1nat } else { 0nat }) == msum(m0, cnt_of::<T, S>()),
+{
+    let f = cnt_of::<T, S>();
+    assert(m1.dom().subset_of(m0.dom()));
+    assert forall|k: K, y: RouteRef<T>| m0.contains_key(k) && !m1.contains_key(k) && #[trigger] m0[k].holds(y) implies rid(*y) == id by {
+        let v1 = choose|v1: S| #[trigger] removed_rel2(m0[k], v1, id) && v1.cnt() == 0;
+        if rid(*y) != id { assert(v1.holds(y)); }
+    }
+    assert forall|y: RouteRef<T>| #![trigger map_holds(m1, y)] #![trigger map_holds(m0, y)] map_holds(m1, y) <==> map_holds(m0, y) && rid(*y) != id by {
+        if map_holds(m1, y) { let k = choose|k: K| m1.contains_key(k) && #[trigger] m1[k].holds(y); assert(m0.contains_key(k) && m0[k].holds(y)); }
+        if map_holds(m0, y) && rid(*y) != id { let k = choose|k: K| m0.contains_key(k) && #[trigger] m0[k].holds(y); assert(m1.contains_key(k)); assert(m1[k].holds(y)); }
+    }
+    assert forall|k: K, x: RouteRef<T>| m1.contains_key(k) && #[trigger] m1[k].holds(x) implies kf(k, x) by { assert(m0[k].holds(x)); }
+    // counts: a bucket that holds no route with this id keeps its count
+    assert forall|k: K| m0.contains_key(k) && !holds_id(m0[k], id) implies (m1.contains_key(k) ==> f(m1[k]) == f(#[trigger] m0[k])) && (!m1.contains_key(k) ==> f(m0[k]) == 0) by {
+        if !m1.contains_key(k) { let v1 = choose|v1: S| #[trigger] removed_rel2(m0[k], v1, id) && v1.cnt() == 0; }
+    }
+    if map_holds_id(m0, id) {
+        let (q, x0) = choose|k: K, y: RouteRef<T>| m0.contains_key(k) && #[trigger] m0[k].holds(y) && rid(*y) == id;
+        assert(holds_id(m0[q], id));
+        assert forall|k: K| k != q && m0.contains_key(k) implies !holds_id(#[trigger] m0[k], id) by {
+            if holds_id(m0[k], id) { let y = choose|y: RouteRef<T>| #[trigger] m0[k].holds(y) && rid(*y) == id; assert(m0[k].holds(y) && m0[q].holds(x0)); }
         }
+        if !m1.contains_key(q) { let v1 = choose|v1: S| #[trigger] removed_rel2(m0[q], v1, id) && v1.cnt() == 0; }
+        lemma_msum_delta(m0, m1, f, q);
+    } else {
+        assert forall|k: K| m0.contains_key(k) implies !holds_id(#[trigger] m0[k], id) by {
+            if holds_id(m0[k], id) { let y = choose|y: RouteRef<T>| #[trigger] m0[k].holds(y) && rid(*y) == id; assert(m0[k].holds(y)); }
         }
-    };
+        lemma_msum_sub(m0, m1, f);
+    }
 }
-sub_store_shim!(Sub);
-// what remove(id) / batch_remove(ids) do to one bucket (the lower layer's contract, as a relation)
-pub open spec fn sub_removed<T>(v0: Sub<T>, v1: Sub<T>, id: Seq<char>, r: Option<RouteRef<T>>) -> bool {
-    v1.wf() && removed_law(v0.hs(), v1.hs(), id, r) && (r is Some ==> v0.cnt() >= 1 && v1.cnt() == v0.cnt() - 1) && (r is None ==> v1.cnt() == v0.cnt())
+// batch_remove(ids) was applied to every bucket; only buckets whose counter is 0 may have been dropped
+pub open spec fn entries_batched<K, T, S: Store<T>>(m0: Map<K, S>, m1: Map<K, S>, ids: Set<String>) -> bool {
+    &&& forall|k: K| #[trigger] m1.contains_key(k) ==> m0.contains_key(k) && batched_rel(m0[k], m1[k], ids)
+    &&& forall|k: K| m0.contains_key(k) && !#[trigger] m1.contains_key(k) ==> exists|v1: S| #[trigger] batched_rel(m0[k], v1, ids) && v1.cnt() == 0
 }
-pub open spec fn sub_batched<T>(v0: Sub<T>, v1: Sub<T>, ids: Set<String>) -> bool {
-    v1.wf() && batch_law(v0.hs(), v1.hs(), ids) && v1.cnt() == v0.cnt()
+pub proof fn lemma_map_batched<K, T, S: Store<T>>(m0: Map<K, S>, m1: Map<K, S>, ids: Set<String>, kf: spec_fn(K, RouteRef<T>) -> bool)
+    requires entries_batched(m0, m1, ids), map_wf(m0), map_keyed(m0, kf),
+        forall|v: S| v.wf() && v.cnt() == 0 ==> forall|x: RouteRef<T>| !#[trigger] v.holds(x),
+    ensures map_wf(m1), map_keyed(m1, kf), msum(m1, cnt_of::<T, S>()) == msum(m0, cnt_of::<T, S>()),
+        forall|y: RouteRef<T>| #![trigger map_holds(m1, y)] #![trigger map_holds(m0, y)] map_holds(m1, y) <==> map_holds(m0, y) && !ids_has(ids, rid(*y)),
+{
+    let f = cnt_of::<T, S>();
+    assert(m1.dom().subset_of(m0.dom()));
+    assert forall|k: K| m0.contains_key(k) && !m1.contains_key(k) implies f(#[trigger] m0[k]) == 0 && forall|y: RouteRef<T>| m0[k].holds(y) ==> ids_has(ids, rid(*y)) by {
+        let v1 = choose|v1: S| #[trigger] batched_rel(m0[k], v1, ids) && v1.cnt() == 0;
+        assert forall|y: RouteRef<T>| m0[k].holds(y) implies ids_has(ids, rid(*y)) by { if !ids_has(ids, rid(*y)) { assert(v1.holds(y)); } }
+    }
+    lemma_msum_sub(m0, m1, f);
+    assert forall|y: RouteRef<T>| #![trigger map_holds(m1, y)] #![trigger map_holds(m0, y)] map_holds(m1, y) <==> map_holds(m0, y) && !ids_has(ids, rid(*y)) by {
+        if map_holds(m1, y) { let k = choose|k: K| m1.contains_key(k) && #[trigger] m1[k].holds(y); assert(m0.contains_key(k) && m0[k].holds(y)); }
+        if map_holds(m0, y) && !ids_has(ids, rid(*y)) { let k = choose|k: K| m0.contains_key(k) && #[trigger] m0[k].holds(y); assert(m1.contains_key(k)); assert(m1[k].holds(y)); }
+    }
+    assert forall|k: K, x: RouteRef<T>| m1.contains_key(k) && #[trigger] m1[k].holds(x) implies kf(k, x) by { assert(m0[k].holds(x)); }
 }
 // R8 outline, ASSUMED contract (trusted, listed): the statement
-//     self.schemes.retain(|_, matcher| { if let Some(value) = matcher.remove(id) { removed = Some(value); } !matcher.is_empty() });
+//     <map>.retain(|_, matcher| { if let Some(value) = matcher.remove(id) { removed = Some(value); } !matcher.is_empty() });
 // assigns a captured local inside the closure, which Verus does not support. Summary: remove(id) is applied to every bucket, only a bucket
-// that is empty afterwards is dropped, `removed` receives a route returned by one of these calls (if any), and — ids being unique across
-// buckets — the total of the buckets' counts drops by one exactly when a route was removed.
+// that is empty afterwards is dropped, and `removed` receives the route returned by one of these calls if any returned one.
 #[verifier::external_body]
 pub fn outl_retain_remove<T>(m: &mut HashMap<String, Sub<T>>, id: &str, removed: &mut Option<RouteRef<T>>)
-    requires forall|k: String| old(m)@.contains_key(k) ==> (#[trigger] old(m)@[k]).wf(), *old(removed) is None,
-        forall|k1: String, k2: String, x: RouteRef<T>, y: RouteRef<T>| old(m)@.contains_key(k1) && old(m)@.contains_key(k2) && #[trigger] old(m)@[k1].holds(x) && #[trigger] old(m)@[k2].holds(y) && rid(*x) == rid(*y) ==> x == y,
-    ensures
-        forall|k: String| #[trigger] final(m)@.contains_key(k) ==> old(m)@.contains_key(k) && exists|r: Option<RouteRef<T>>| #[trigger] sub_removed(old(m)@[k], final(m)@[k], id@, r),
-        forall|k: String| old(m)@.contains_key(k) && !#[trigger] final(m)@.contains_key(k) ==> exists|v1: Sub<T>, r: Option<RouteRef<T>>| #[trigger] sub_removed(old(m)@[k], v1, id@, r) && v1.cnt() == 0,
-        *final(removed) matches Some(x) ==> rid(*x) == id@ && exists|k: String| old(m)@.contains_key(k) && #[trigger] old(m)@[k].holds(x),
-        *final(removed) is None ==> forall|k: String, y: RouteRef<T>| old(m)@.contains_key(k) && #[trigger] old(m)@[k].holds(y) ==> rid(*y) != id@,
-        msum(final(m)@, cnt_sub::<T>()) + (if *final(removed) is Some { 1nat } else { 0nat }) == msum(old(m)@, cnt_sub::<T>()),
+    requires map_wf(old(m)@), *old(removed) is None,
+    ensures entries_removed(old(m)@, final(m)@, id@),
+        *final(removed) matches Some(x) ==> rid(*x) == id@ && map_holds(old(m)@, x),
+        *final(removed) is None ==> !map_holds_id(old(m)@, id@),
 {
-    /* verbatim: self.schemes.retain(|_, matcher| { if let Some(value) = matcher.remove(id) { removed = Some(value); } !matcher.is_empty() }); */
+    /* verbatim: self.schemes.retain(|_, matcher| { if let Some(value) = matcher.remove(id) { removed = Some(value); } !matcher.is_empty() }); | self.static_hosts.retain(|_, matcher| { if let Some(value) = matcher.remove(id) { removed = Some(value); } !matcher.is_empty() }); */
     unimplemented!()
 }
 
 // ================================================================ scheme layer
 //@@ rename HostMatcher Sub
 //@@ item src/router/request_matcher/scheme.rs :: struct SchemeMatcher
-pub open spec fn cnt_sub<T>() -> spec_fn(Sub<T>) -> nat { |s: Sub<T>| s.cnt() }
+pub open spec fn sch_kf<T>() -> spec_fn(String, RouteRef<T>) -> bool { |k: String, x: RouteRef<T>| rscheme(*x) == Some(k@) }
+pub open spec fn sch_any_ok<T>(x: RouteRef<T>) -> bool { rscheme(*x) matches Some(s) ==> s.len() == 0 }
 impl<T> SchemeMatcher<T> {
-    pub open spec fn holds(&self, x: RouteRef<T>) -> bool {
-        self.any_scheme.holds(x) || exists|k: String| self.schemes@.contains_key(k) && #[trigger] self.schemes@[k].holds(x)
-    }
-    pub open spec fn hs(&self) -> spec_fn(RouteRef<T>) -> bool { |x: RouteRef<T>| self.holds(x) }
-    pub open spec fn cnt(&self) -> nat { self.count as nat }
-    pub open spec fn wf(&self) -> bool {
-        &&& self.any_scheme.wf()
-        &&& forall|k: String| self.schemes@.contains_key(k) ==> (#[trigger] self.schemes@[k]).wf() && k@.len() > 0
-        &&& self.count == self.any_scheme.cnt() + msum(self.schemes@, cnt_sub::<T>())
-        &&& uniq_ids(self.hs())
+    pub open spec fn sholds(&self, x: RouteRef<T>) -> bool { self.any_scheme.holds(x) || map_holds(self.schemes@, x) }
+    pub open spec fn swf(&self) -> bool {
+        &&& self.any_scheme.wf() && map_wf(self.schemes@)
+        &&& forall|k: String| #[trigger] self.schemes@.contains_key(k) ==> k@.len() > 0
+        &&& self.count == self.any_scheme.cnt() + msum(self.schemes@, cnt_of::<T, Sub<T>>())
+        // live ids are unique
+        &&& forall|x: RouteRef<T>, y: RouteRef<T>| #[trigger] self.sholds(x) && #[trigger] self.sholds(y) && rid(*x) == rid(*y) ==> x == y
         // bucket-key consistency: a route filed under scheme k has scheme k; a route filed under "any" has no (or the empty) scheme
-        &&& forall|k: String, x: RouteRef<T>| self.schemes@.contains_key(k) && #[trigger] self.schemes@[k].holds(x) ==> rscheme(*x) == Some(k@)
-        &&& forall|x: RouteRef<T>| #[trigger] self.any_scheme.holds(x) ==> (rscheme(*x) matches Some(s) ==> s.len() == 0)
+        &&& map_keyed(self.schemes@, sch_kf::<T>())
+        &&& forall|x: RouteRef<T>| #[trigger] self.any_scheme.holds(x) ==> sch_any_ok(x)
     }
+}
+impl<T> Store<T> for SchemeMatcher<T> {
+    open spec fn holds(&self, x: RouteRef<T>) -> bool { self.sholds(x) }
+    open spec fn cnt(&self) -> nat { self.count as nat }
+    open spec fn wf(&self) -> bool { self.swf() }
+}
+pub proof fn lemma_scheme_uniq_bridge<T>(n: SchemeMatcher<T>)
+    requires uniq(n),
+    ensures forall|x: RouteRef<T>, y: RouteRef<T>| #[trigger] n.sholds(x) && #[trigger] n.sholds(y) && rid(*x) == rid(*y) ==> x == y,
+{
+    assert forall|x: RouteRef<T>, y: RouteRef<T>| #[trigger] n.sholds(x) && #[trigger] n.sholds(y) && rid(*x) == rid(*y) implies x == y by { assert(n.holds(x) && n.holds(y)); }
+}
+pub proof fn lemma_sub_empty<T>()
+    ensures forall|v: Sub<T>| v.wf() && v.cnt() == 0 ==> forall|x: RouteRef<T>| !#[trigger] v.holds(x),
+{
+    assert forall|v: Sub<T>| v.wf() && v.cnt() == 0 implies forall|x: RouteRef<T>| !#[trigger] v.holds(x) by { lemma_sub_wf(v); }
+}
+pub proof fn lemma_scheme_map_uniq<T>(s: SchemeMatcher<T>)
+    requires s.wf(),
+    ensures map_uniq(s.schemes@),
+{
+    axiom_string_ext();
+    let m = s.schemes@;
+    assert forall|k1: String, k2: String, x: RouteRef<T>, y: RouteRef<T>| m.contains_key(k1) && m.contains_key(k2) && #[trigger] m[k1].holds(x) && #[trigger] m[k2].holds(y) && rid(*x) == rid(*y) implies x == y && k1 == k2 by {
+        assert(map_holds(m, x) && map_holds(m, y)); assert(s.holds(x) && s.holds(y));
+        assert(sch_kf::<T>()(k1, x) && sch_kf::<T>()(k2, y));
+    }
+}
+pub proof fn lemma_uniq_inserted<T, S: Store<T>>(o: S, n: S, rt: RouteRef<T>)
+    requires uniq(o), forall|x: RouteRef<T>| o.holds(x) ==> rid(*x) != rid(*rt), forall|x: RouteRef<T>| #![trigger n.holds(x)] n.holds(x) <==> o.holds(x) || x == rt,
+    ensures uniq(n),
+{
+    assert forall|x: RouteRef<T>, y: RouteRef<T>| #[trigger] n.holds(x) && #[trigger] n.holds(y) && rid(*x) == rid(*y) implies x == y by {
+        if x != rt && y != rt { assert(o.holds(x) && o.holds(y)); } else if x != rt { assert(o.holds(x)); } else if y != rt { assert(o.holds(y)); }
+    }
+}
+pub proof fn lemma_uniq_subset<T, S: Store<T>>(o: S, n: S)
+    requires uniq(o), forall|x: RouteRef<T>| #[trigger] n.holds(x) ==> o.holds(x),
+    ensures uniq(n),
+{
+    assert forall|x: RouteRef<T>, y: RouteRef<T>| #[trigger] n.holds(x) && #[trigger] n.holds(y) && rid(*x) == rid(*y) implies x == y by { assert(o.holds(x) && o.holds(y)); }
+}
+// the route went to the "any scheme" bucket
+pub proof fn lemma_scheme_inserted_any<T>(o: SchemeMatcher<T>, n: SchemeMatcher<T>, rt: RouteRef<T>)
+    requires o.wf(), forall|x: RouteRef<T>| o.holds(x) ==> rid(*x) != rid(*rt), n.schemes@ == o.schemes@, inserted_rel(o.any_scheme, n.any_scheme, rt), n.count == o.count + 1, sch_any_ok(rt),
+    ensures inserted_rel(o, n, rt),
+{
+    assert forall|x: RouteRef<T>| #![trigger n.holds(x)] #![trigger o.holds(x)] n.holds(x) <==> o.holds(x) || x == rt by {}
+    lemma_uniq_inserted(o, n, rt);
+    assert forall|x: RouteRef<T>| #[trigger] n.any_scheme.holds(x) implies sch_any_ok(x) by { if x != rt { assert(o.any_scheme.holds(x)); } }
+    lemma_scheme_uniq_bridge(n);
+}
+// the route went to the bucket of its (non-empty) scheme
+pub proof fn lemma_scheme_inserted_bucket<T>(o: SchemeMatcher<T>, n: SchemeMatcher<T>, rt: RouteRef<T>, key: String)
+    requires o.wf(), forall|x: RouteRef<T>| o.holds(x) ==> rid(*x) != rid(*rt), n.any_scheme == o.any_scheme, n.count == o.count + 1, key@.len() > 0, rscheme(*rt) == Some(key@),
+        n.schemes@.contains_key(key), n.schemes@ == o.schemes@.insert(key, n.schemes@[key]), n.schemes@[key].wf(),
+        forall|x: RouteRef<T>| #![trigger n.schemes@[key].holds(x)] n.schemes@[key].holds(x) <==> (o.schemes@.contains_key(key) && o.schemes@[key].holds(x)) || x == rt,
+        n.schemes@[key].cnt() == (if o.schemes@.contains_key(key) { o.schemes@[key].cnt() } else { 0 }) + 1,
+    ensures inserted_rel(o, n, rt),
+{
+    assert(sch_kf::<T>()(key, rt));
+    lemma_map_inserted(o.schemes@, n.schemes@, key, rt, sch_kf::<T>());
+    assert forall|x: RouteRef<T>| #![trigger n.holds(x)] #![trigger o.holds(x)] n.holds(x) <==> o.holds(x) || x == rt by {}
+    lemma_uniq_inserted(o, n, rt);
+    assert forall|k: String| #[trigger] n.schemes@.contains_key(k) implies k@.len() > 0 by { if k != key { assert(o.schemes@.contains_key(k)); } }
+    lemma_scheme_uniq_bridge(n);
+}
+pub proof fn lemma_scheme_removed_any<T>(o: SchemeMatcher<T>, n: SchemeMatcher<T>, id: Seq<char>, x0: RouteRef<T>)
+    requires o.wf(), n.schemes@ == o.schemes@, removed_rel(o.any_scheme, n.any_scheme, id, Some(x0)), n.count == o.count - 1, o.count >= 1,
+    ensures removed_rel(o, n, id, Some(x0)),
+{
+    assert(o.holds(x0));
+    assert forall|y: RouteRef<T>| #![trigger n.holds(y)] #![trigger o.holds(y)] n.holds(y) <==> o.holds(y) && rid(*y) != id by {
+        if o.holds(y) && rid(*y) == id { assert(y == x0); }
+    }
+    lemma_uniq_subset(o, n);
+    assert forall|x: RouteRef<T>| #[trigger] n.any_scheme.holds(x) implies sch_any_ok(x) by { assert(o.any_scheme.holds(x)); }
+    lemma_scheme_uniq_bridge(n);
+}
+pub proof fn lemma_scheme_removed<T>(o: SchemeMatcher<T>, n: SchemeMatcher<T>, id: Seq<char>, r: Option<RouteRef<T>>)
+    requires o.wf(), removed_rel(o.any_scheme, n.any_scheme, id, None::<RouteRef<T>>), entries_removed(o.schemes@, n.schemes@, id),
+        r matches Some(x) ==> rid(*x) == id && map_holds(o.schemes@, x), r is None ==> !map_holds_id(o.schemes@, id),
+        n.count + (if r is Some { 1int } else { 0int }) == o.count,
+    ensures removed_rel(o, n, id, r),
+{
+    lemma_scheme_map_uniq(o); lemma_sub_empty::<T>();
+    lemma_map_removed(o.schemes@, n.schemes@, id, sch_kf::<T>());
+    if r is Some { let x = r.unwrap(); let k = choose|k: String| o.schemes@.contains_key(k) && #[trigger] o.schemes@[k].holds(x); assert(map_holds_id(o.schemes@, id)); assert(o.holds(x)); }
+    assert forall|y: RouteRef<T>| #![trigger n.holds(y)] #![trigger o.holds(y)] n.holds(y) <==> o.holds(y) && rid(*y) != id by {
+        if o.any_scheme.holds(y) { assert(holds_id(o.any_scheme, id) || rid(*y) != id); }
+    }
+    if r is None {
+        assert forall|y: RouteRef<T>| #[trigger] o.holds(y) implies rid(*y) != id by {
+            if o.any_scheme.holds(y) { assert(holds_id(o.any_scheme, id) || rid(*y) != id); }
+            if map_holds(o.schemes@, y) { let k = choose|k: String| o.schemes@.contains_key(k) && #[trigger] o.schemes@[k].holds(y); assert(map_holds_id(o.schemes@, id) || rid(*y) != id); }
+        }
+    }
+    lemma_uniq_subset(o, n);
+    assert forall|k: String| #[trigger] n.schemes@.contains_key(k) implies k@.len() > 0 by { assert(o.schemes@.contains_key(k)); }
+    assert forall|x: RouteRef<T>| #[trigger] n.any_scheme.holds(x) implies sch_any_ok(x) by { assert(o.any_scheme.holds(x)); }
+    lemma_scheme_uniq_bridge(n);
+}
+pub proof fn lemma_scheme_batched<T>(o: SchemeMatcher<T>, n: SchemeMatcher<T>, ids: Set<String>)
+    requires o.wf(), batched_rel(o.any_scheme, n.any_scheme, ids), entries_batched(o.schemes@, n.schemes@, ids), n.count == o.count,
+    ensures batched_rel(o, n, ids),
+{
+    lemma_sub_empty::<T>();
+    lemma_map_batched(o.schemes@, n.schemes@, ids, sch_kf::<T>());
+    assert forall|y: RouteRef<T>| #![trigger n.holds(y)] #![trigger o.holds(y)] n.holds(y) <==> o.holds(y) && !ids_has(ids, rid(*y)) by {}
+    lemma_uniq_subset(o, n);
+    assert forall|k: String| #[trigger] n.schemes@.contains_key(k) implies k@.len() > 0 by { assert(o.schemes@.contains_key(k)); }
+    assert forall|x: RouteRef<T>| #[trigger] n.any_scheme.holds(x) implies sch_any_ok(x) by { assert(o.any_scheme.holds(x)); }
+    lemma_scheme_uniq_bridge(n);
+}
+impl<T> SchemeMatcher<T> {
     //@@ fn src/router/request_matcher/scheme.rs :: impl <T>SchemeMatcher<T> / fn new -> r
     //@| ensures r.wf(), r.cnt() == 0, forall|x: RouteRef<T>| !r.holds(x),
     //@| entry broadcast use group_hash_axioms; broadcast use axiom_string_key_model;
 
     //@@ fn src/router/request_matcher/scheme.rs :: impl <T>SchemeMatcher<T> / fn insert
     //@| requires old(self).wf(), old(self).cnt() < usize::MAX, forall|x: RouteRef<T>| old(self).holds(x) ==> rid(*x) != rid(*route),
-    //@| ensures final(self).wf(), final(self).cnt() == old(self).cnt() + 1, forall|x: RouteRef<T>| final(self).holds(x) <==> old(self).holds(x) || x == route,
+    //@| ensures inserted_rel(*old(self), *final(self), route),
     //@| entry broadcast use group_hash_axioms; broadcast use axiom_string_key_model; broadcast use axiom_borrow_str_contains; broadcast use axiom_borrow_str_maps; broadcast use axiom_borrow_str_upd;
-    //@|     let ghost m0 = self.schemes@; let ghost a0 = self.any_scheme; let ghost f = cnt_sub::<T>(); let ghost rt = route; let ghost rsc = rscheme_of(rt);
-    //@|     proof { axiom_string_ext(); self.any_scheme.lemma_wf(); lit_empty(); }
-    //@| exit proof {
-    //@|     assert forall|x: RouteRef<T>, y: RouteRef<T>| #[trigger] self.hs()(x) && #[trigger] self.hs()(y) && rid(*x) == rid(*y) implies x == y by {
-    //@|         assert(self.holds(x) && self.holds(y));
-    //@|         if x != route && y != route { assert(old(self).hs()(x) && old(self).hs()(y)); }
-    //@|         else if x != route { assert(old(self).holds(x)); } else if y != route { assert(old(self).holds(y)); }
-    //@|     }
-    //@| }
-    //@| exit proof { if rsc is None || rsc.unwrap().len() == 0 {
-    //@|     assert(self.schemes@ == m0);
-    //@|     assert forall|k: String, x: RouteRef<T>| self.schemes@.contains_key(k) && #[trigger] self.schemes@[k].holds(x) implies rscheme(*x) == Some(k@) by { assert(m0[k].holds(x)); }
-    //@|     assert forall|x: RouteRef<T>| #[trigger] self.any_scheme.holds(x) implies (rscheme(*x) matches Some(s) ==> s.len() == 0) by { if x != rt { assert(a0.holds(x)); } }
-    //@|     assert forall|x: RouteRef<T>| self.holds(x) <==> old(self).holds(x) || x == rt by {
-    //@|         if self.holds(x) && !self.any_scheme.holds(x) { let k = choose|k: String| self.schemes@.contains_key(k) && #[trigger] self.schemes@[k].holds(x); assert(m0[k].holds(x)); }
-    //@|         if old(self).holds(x) && !a0.holds(x) { let k = choose|k: String| m0.contains_key(k) && #[trigger] m0[k].holds(x); assert(self.schemes@[k].holds(x)); }
-    //@|     }
-    //@| } }
-    //@| after `self.schemes.insert(scheme.to_string(), HostMatcher::new(self.config.clone()));`: proof {
-    //@|     let key = choose|key: String| key@ == scheme@ && self.schemes@.contains_key(key);
-    //@|     assert(self.schemes@ == m0.insert(key, self.schemes@[key]));
-    //@|     lemma_msum_fresh(m0, f, key, self.schemes@[key]);
-    //@| }
+    //@|     let ghost m0 = self.schemes@; let ghost f = cnt_of::<T, Sub<T>>(); let ghost rt = route; let ghost rsc = rscheme_of(rt);
+    //@|     proof { axiom_string_ext(); lemma_sub_wf(self.any_scheme); lit_empty(); }
+    //@| exit proof { if rsc is None || rsc.unwrap().len() == 0 { lemma_scheme_inserted_any(*old(self), *self, rt); } }
     //@| before `self.schemes.get_mut(scheme).unwrap().insert(route);`: let ghost m1 = self.schemes@;
     //@|     proof {
     //@|         let key = choose|key: String| key@ == scheme@ && m1.contains_key(key);
-    //@|         assert(m1[key].wf());
-    //@|         m1[key].lemma_wf();
-    //@|         lemma_msum_remove(m1, f, key);
-    //@|         assert forall|x: RouteRef<T>| m1[key].holds(x) implies rid(*x) != rid(*route) by { if m0.contains_key(key) { assert(old(self).holds(x)); } }
+    //@|         assert(m1[key].wf()); lemma_sub_wf(m1[key]);
+    //@|         if m0.contains_key(key) { assert(m1 == m0); lemma_msum_remove(m0, f, key); assert forall|x: RouteRef<T>| m1[key].holds(x) implies rid(*x) != rid(*route) by { assert(map_holds(m0, x)); assert(old(self).holds(x)); } }
+    //@|         else { assert(m1 == m0.insert(key, m1[key])); }
     //@|     }
     //@| after `self.schemes.get_mut(scheme).unwrap().insert(route);`: proof {
     //@|     let key = choose|key: String| key@ == scheme@ && m1.contains_key(key);
-    //@|     let v = self.schemes@[key];
-    //@|     assert(self.schemes@ == m1.insert(key, v));
-    //@|     lemma_msum_insert(m1, f, key, v);
-    //@|     assert forall|x: RouteRef<T>| self.holds(x) <==> old(self).holds(x) || x == route by {
-    //@|         if self.holds(x) && !self.any_scheme.holds(x) {
-    //@|             let k = choose|k: String| self.schemes@.contains_key(k) && #[trigger] self.schemes@[k].holds(x);
-    //@|             if k != key { assert(m1[k] == self.schemes@[k]); assert(m0.contains_key(k) && m0[k].holds(x)); }
-    //@|             else if x != route { assert(m1[key].holds(x)); assert(m0.contains_key(key) && m0[key].holds(x)); }
-    //@|         }
-    //@|         if old(self).holds(x) && !a0.holds(x) {
-    //@|             let k = choose|k: String| m0.contains_key(k) && #[trigger] m0[k].holds(x);
-    //@|             assert(self.schemes@.contains_key(k));
-    //@|             if k != key { assert(self.schemes@[k] == m0[k]); } else { assert(m1[key] == m0[key]); assert(self.schemes@[key].holds(x)); }
-    //@|         }
-    //@|         if x == route { assert(self.schemes@[key].holds(x)); }
-    //@|     }
-    //@|     assert forall|k: String| self.schemes@.contains_key(k) implies (#[trigger] self.schemes@[k]).wf() && k@.len() > 0 by { if k != key { assert(m1.contains_key(k) && m1[k] == self.schemes@[k]); } }
-    //@|     assert forall|k: String, x: RouteRef<T>| self.schemes@.contains_key(k) && #[trigger] self.schemes@[k].holds(x) implies rscheme(*x) == Some(k@) by {
-    //@|         if k != key { assert(m1[k] == self.schemes@[k]); assert(m0.contains_key(k) && m0[k].holds(x)); }
-    //@|         else if x != route { assert(m1[key].holds(x)); assert(m0.contains_key(key) && m0[key].holds(x)); }
-    //@|     }
-    //@|     assert(self.any_scheme == a0);
+    //@|     assert(self.schemes@ == m1.insert(key, self.schemes@[key]));
+    //@|     assert(self.schemes@ =~= m0.insert(key, self.schemes@[key]));
+    //@|     lemma_scheme_inserted_bucket(*old(self), *self, rt, key);
     //@| }
 
     //@@ fn src/router/request_matcher/scheme.rs :: impl <T>SchemeMatcher<T> / fn remove -> r
     //@| requires old(self).wf(),
-    //@| ensures final(self).wf(), removed_law(old(self).hs(), final(self).hs(), id@, r),
-    //@|     r is Some ==> old(self).cnt() >= 1 && final(self).cnt() == old(self).cnt() - 1, r is None ==> final(self).cnt() == old(self).cnt(),
+    //@| ensures removed_rel(*old(self), *final(self), id@, r),
     //@| outline `self.schemes.retain(|_, matcher| { if let Some(value) = matcher.remove(id) { removed = Some(value); } !matcher.is_empty() });` => `outl_retain_remove(&mut self.schemes, id, &mut removed);`
     //@| entry broadcast use group_hash_axioms; broadcast use axiom_string_key_model;
-    //@|     let ghost m0 = self.schemes@; let ghost a0 = self.any_scheme;
-    //@|     proof { axiom_string_ext(); a0.lemma_wf(); assert forall|x: RouteRef<T>| a0.holds(x) implies old(self).hs()(x) by { assert(old(self).holds(x)); } }
-    //@| before `return removed;`: proof {
-    //@|     let x0 = removed.unwrap();
-    //@|     assert(self.schemes@ == m0);
-    //@|     assert forall|y: RouteRef<T>| #[trigger] self.hs()(y) <==> old(self).hs()(y) && rid(*y) != id@ by {
-    //@|         assert(self.hs()(y) == self.holds(y)); assert(old(self).hs()(y) == old(self).holds(y));
-    //@|         assert(self.any_scheme.hs()(y) == self.any_scheme.holds(y)); assert(a0.hs()(y) == a0.holds(y));
-    //@|         if old(self).holds(y) && !a0.holds(y) && rid(*y) == id@ { assert(old(self).hs()(x0) && old(self).hs()(y)); assert(a0.hs()(x0)); }
-    //@|     }
-    //@|     assert(old(self).hs()(x0)) by { assert(a0.hs()(x0)); assert(old(self).holds(x0)); }
-    //@|     assert forall|x: RouteRef<T>, y: RouteRef<T>| #[trigger] self.hs()(x) && #[trigger] self.hs()(y) && rid(*x) == rid(*y) implies x == y by { assert(old(self).hs()(x) && old(self).hs()(y)); }
-    //@|     assert forall|x: RouteRef<T>| #[trigger] self.any_scheme.holds(x) implies (rscheme(*x) matches Some(s) ==> s.len() == 0) by { assert(self.any_scheme.hs()(x)); assert(a0.hs()(x)); }
+    //@|     proof { axiom_string_ext(); }
+    //@| before `return removed;`: proof { lemma_scheme_removed_any(*old(self), *self, id@, removed.unwrap()); }
+    //@| before `if removed.is_some() {`#1: proof {
+    //@|     lemma_scheme_map_uniq(*old(self)); lemma_sub_empty::<T>();
+    //@|     lemma_map_removed(old(self).schemes@, self.schemes@, id@, sch_kf::<T>());
+    //@|     if removed is Some { let x = removed.unwrap(); let k = choose|k: String| old(self).schemes@.contains_key(k) && #[trigger] old(self).schemes@[k].holds(x); assert(map_holds_id(old(self).schemes@, id@)); }
     //@| }
-    //@| before `self.schemes.retain(`: proof {
-    //@|     assert(self.any_scheme.cnt() == a0.cnt());
-    //@|     assert forall|k1: String, k2: String, x: RouteRef<T>, y: RouteRef<T>| m0.contains_key(k1) && m0.contains_key(k2) && #[trigger] m0[k1].holds(x) && #[trigger] m0[k2].holds(y) && rid(*x) == rid(*y) implies x == y by {
-    //@|         assert(old(self).holds(x) && old(self).holds(y)); assert(old(self).hs()(x) && old(self).hs()(y));
-    //@|     }
-    //@| }
-    //@| exit proof {
-    //@|     let m1 = self.schemes@;
-    //@|     assert forall|y: RouteRef<T>| a0.holds(y) implies rid(*y) != id@ && self.any_scheme.holds(y) by { assert(a0.hs()(y)); assert(self.any_scheme.hs()(y)); }
-    //@|     assert forall|y: RouteRef<T>| self.any_scheme.holds(y) implies a0.holds(y) by { assert(self.any_scheme.hs()(y)); assert(a0.hs()(y)); }
-    //@|     assert forall|y: RouteRef<T>| #[trigger] self.hs()(y) <==> old(self).hs()(y) && rid(*y) != id@ by {
-    //@|         assert(self.hs()(y) == self.holds(y)); assert(old(self).hs()(y) == old(self).holds(y));
-    //@|         if self.holds(y) && !self.any_scheme.holds(y) {
-    //@|             let k = choose|k: String| m1.contains_key(k) && #[trigger] m1[k].holds(y);
-    //@|             let r = choose|r: Option<RouteRef<T>>| #[trigger] sub_removed(m0[k], m1[k], id@, r);
-    //@|             assert(m1[k].hs()(y)); assert(m0[k].hs()(y)); assert(m0[k].holds(y));
-    //@|         }
-    //@|         if old(self).holds(y) && !a0.holds(y) && rid(*y) != id@ {
-    //@|             let k = choose|k: String| m0.contains_key(k) && #[trigger] m0[k].holds(y);
-    //@|             assert(m0[k].hs()(y));
-    //@|             if m1.contains_key(k) {
-    //@|                 let r = choose|r: Option<RouteRef<T>>| #[trigger] sub_removed(m0[k], m1[k], id@, r);
-    //@|                 assert(m1[k].hs()(y)); assert(m1[k].holds(y));
-    //@|             } else {
-    //@|                 let (v1, r) = choose|v1: Sub<T>, r: Option<RouteRef<T>>| #[trigger] sub_removed(m0[k], v1, id@, r) && v1.cnt() == 0;
-    //@|                 v1.lemma_wf(); assert(v1.hs()(y)); assert(v1.holds(y));
-    //@|             }
-    //@|         }
-    //@|     }
-    //@|     if removed is Some { let x0 = removed.unwrap(); let k = choose|k: String| m0.contains_key(k) && #[trigger] m0[k].holds(x0); assert(old(self).holds(x0)); assert(old(self).hs()(x0)); assert(m0[k].wf()); m0[k].lemma_wf();
-    //@|         lemma_msum_remove(m0, cnt_sub::<T>(), k);
-    //@|         if m1.contains_key(k) { let r = choose|r: Option<RouteRef<T>>| #[trigger] sub_removed(m0[k], m1[k], id@, r); assert(m0[k].hs()(x0)); assert(r is Some); }
-    //@|         else { let (v1, r) = choose|v1: Sub<T>, r: Option<RouteRef<T>>| #[trigger] sub_removed(m0[k], v1, id@, r) && v1.cnt() == 0; assert(m0[k].hs()(x0)); assert(r is Some); }
-    //@|     } else {
-    //@|         assert forall|y: RouteRef<T>| #[trigger] old(self).hs()(y) implies rid(*y) != id@ by { assert(old(self).holds(y)); if !a0.holds(y) { let k = choose|k: String| m0.contains_key(k) && #[trigger] m0[k].holds(y); } }
-    //@|     }
-    //@|     assert forall|k: String| m1.contains_key(k) implies (#[trigger] m1[k]).wf() && k@.len() > 0 by { let r = choose|r: Option<RouteRef<T>>| #[trigger] sub_removed(m0[k], m1[k], id@, r); }
-    //@|     assert forall|x: RouteRef<T>, y: RouteRef<T>| #[trigger] self.hs()(x) && #[trigger] self.hs()(y) && rid(*x) == rid(*y) implies x == y by { assert(old(self).hs()(x) && old(self).hs()(y)); }
-    //@|     assert forall|k: String, x: RouteRef<T>| m1.contains_key(k) && #[trigger] m1[k].holds(x) implies rscheme(*x) == Some(k@) by {
-    //@|         let r = choose|r: Option<RouteRef<T>>| #[trigger] sub_removed(m0[k], m1[k], id@, r); assert(m1[k].hs()(x)); assert(m0[k].hs()(x)); assert(m0[k].holds(x));
-    //@|     }
-    //@|     assert forall|x: RouteRef<T>| #[trigger] self.any_scheme.holds(x) implies (rscheme(*x) matches Some(s) ==> s.len() == 0) by { assert(a0.holds(x)); }
-    //@| }
+    //@| exit proof { lemma_scheme_removed(*old(self), *self, id@, removed); }
 
     //@@ fn src/router/request_matcher/scheme.rs :: impl <T>SchemeMatcher<T> / fn batch_remove -> r
     //@| requires old(self).wf(),
-    //@| ensures final(self).wf(), batch_law(old(self).hs(), final(self).hs(), ids@), final(self).cnt() == old(self).cnt(),
-    //@| closure `|_, matcher|` => `|_k: &String, matcher: &mut Sub<T>| -> (b: bool) requires old(matcher).wf() ensures sub_batched(*old(matcher), *final(matcher), ids@), !b ==> final(matcher).cnt() == 0`
+    //@| ensures batched_rel(*old(self), *final(self), ids@),
+    //@| closure `|_, matcher|` => `|_k: &String, matcher: &mut Sub<T>| -> (b: bool) requires old(matcher).wf() ensures batched_rel(*old(matcher), *final(matcher), ids@), !b ==> final(matcher).cnt() == 0`
     //@| entry broadcast use group_hash_axioms; broadcast use axiom_string_key_model;
-    //@|     let ghost m0 = self.schemes@; let ghost a0 = self.any_scheme;
     //@|     proof { axiom_string_ext(); }
-    //@| exit proof {
-    //@|     let m1 = self.schemes@; let f = cnt_sub::<T>(); let a1 = self.any_scheme;
-    //@|     assert forall|k: String| m1.contains_key(k) implies m0.contains_key(k) && sub_batched(m0[k], #[trigger] m1[k], ids@) by {}
-    //@|     assert forall|k: String| m0.contains_key(k) && !m1.contains_key(k) implies f(#[trigger] m0[k]) == 0 && forall|y: RouteRef<T>| !m0[k].holds(y) by { m0[k].lemma_wf(); }
-    //@|     assert(m1.dom().subset_of(m0.dom()));
-    //@|     lemma_msum_sub(m0, m1, f);
-    //@|     assert forall|y: RouteRef<T>| #[trigger] self.hs()(y) <==> old(self).hs()(y) && !ids_has(ids@, rid(*y)) by {
-    //@|         assert(self.hs()(y) == self.holds(y)); assert(old(self).hs()(y) == old(self).holds(y));
-    //@|         assert(a1.hs()(y) == a1.holds(y)); assert(a0.hs()(y) == a0.holds(y));
-    //@|         if self.holds(y) && !a1.holds(y) {
-    //@|             let k = choose|k: String| m1.contains_key(k) && #[trigger] m1[k].holds(y);
-    //@|             assert(sub_batched(m0[k], m1[k], ids@)); assert(m1[k].hs()(y)); assert(m0[k].hs()(y)); assert(m0[k].holds(y));
-    //@|         }
-    //@|         if old(self).holds(y) && !a0.holds(y) && !ids_has(ids@, rid(*y)) {
-    //@|             let k = choose|k: String| m0.contains_key(k) && #[trigger] m0[k].holds(y);
-    //@|             assert(m1.contains_key(k));
-    //@|             assert(sub_batched(m0[k], m1[k], ids@)); assert(m0[k].hs()(y)); assert(m1[k].hs()(y)); assert(m1[k].holds(y));
-    //@|         }
-    //@|     }
-    //@|     assert forall|x: RouteRef<T>, y: RouteRef<T>| #[trigger] self.hs()(x) && #[trigger] self.hs()(y) && rid(*x) == rid(*y) implies x == y by { assert(old(self).hs()(x) && old(self).hs()(y)); }
-    //@|     assert forall|k: String, x: RouteRef<T>| m1.contains_key(k) && #[trigger] m1[k].holds(x) implies rscheme(*x) == Some(k@) by {
-    //@|         assert(sub_batched(m0[k], m1[k], ids@)); assert(m1[k].hs()(x)); assert(m0[k].hs()(x)); assert(m0[k].holds(x));
-    //@|     }
-    //@|     assert forall|x: RouteRef<T>| #[trigger] a1.holds(x) implies (rscheme(*x) matches Some(s) ==> s.len() == 0) by { assert(a1.hs()(x)); assert(a0.hs()(x)); assert(a0.holds(x)); }
-    //@| }
+    //@| exit proof { lemma_scheme_batched(*old(self), *self, ids@); }
 
     //@@ fn src/router/request_matcher/scheme.rs :: impl <T>SchemeMatcher<T> / fn len -> r
     //@| ensures r == self.cnt(),
@@ -386,191 +497,6 @@ impl<T> SchemeMatcher<T> {
     //@| ensures r == (self.cnt() == 0),
 }
 //@@ unrename HostMatcher
-
-// ================================================================ host layer
-// SHIM: marker strings are opaque except for their regex text; StaticOrDynamic is the real enum
-pub struct MarkerString { pub regex: String, pub vf_rest: u8 }
-//@@ item src/marker/mod.rs :: enum StaticOrDynamic
-pub enum HostKey { NoHost, Static(Seq<char>), Dynamic(Seq<char>) }
-pub uninterp spec fn rhost<T>(r: Route<T>) -> HostKey;
-pub open spec fn rhost_of<T>(x: RouteRef<T>) -> HostKey { rhost(*x) }
-pub open spec fn host_key(o: Option<&StaticOrDynamic>) -> HostKey {
-    match o { None => HostKey::NoHost, Some(StaticOrDynamic::Static(s)) => HostKey::Static(s@), Some(StaticOrDynamic::Dynamic(m)) => HostKey::Dynamic(m.regex@) }
-}
-impl<T> Route<T> {
-    #[verifier::external_body] pub fn host(&self) -> (r: Option<&StaticOrDynamic>) ensures host_key(r) == rhost(*self) { unimplemented!() }
-}
-// SHIM of the regex tree keyed by unique patterns (unit `tree` verifies the real one against its content laws; here: the induced
-// pattern -> value map). ASSUMED contracts, in the shape of HashMap's.
-#[verifier::external_body] #[verifier::accept_recursive_types(V)] pub struct UniqueRegexTreeMap<V> { h: std::marker::PhantomData<V> }
-impl<V> UniqueRegexTreeMap<V> {
-    pub uninterp spec fn tmap(&self) -> Map<Seq<char>, V>;
-    #[verifier::external_body]
-    pub fn new(ignore_case: bool) -> (r: Self) ensures r.tmap() == Map::<Seq<char>, V>::empty() { unimplemented!() }
-    #[verifier::external_body]
-    pub fn get_mut(&mut self, regex: &str) -> (r: Option<&mut V>)
-        ensures match r {
-            Some(v) => old(self).tmap().contains_key(regex@) && *v == old(self).tmap()[regex@] && final(self).tmap() == old(self).tmap().insert(regex@, *final(v)),
-            None => !old(self).tmap().contains_key(regex@) && final(self).tmap() == old(self).tmap(),
-        },
-    { unimplemented!() }
-    #[verifier::external_body]
-    pub fn insert(&mut self, regex: &str, item: V) ensures final(self).tmap() == old(self).tmap().insert(regex@, item) { unimplemented!() }
-    #[verifier::external_body]
-    pub fn retain<F: Fn(&str, &mut V) -> bool>(&mut self, f: &F)
-        requires forall|k: &str, v: &mut V| old(self).tmap().contains_key(k@) && *v == old(self).tmap()[k@] ==> #[trigger] f.requires((k, v)),
-        ensures
-            forall|p: Seq<char>| #[trigger] final(self).tmap().contains_key(p) ==> old(self).tmap().contains_key(p) && exists|k: &str, v: &mut V| k@ == p && *v == old(self).tmap()[p] && *final(v) == final(self).tmap()[p] && #[trigger] f.ensures((k, v), true),
-            forall|p: Seq<char>| old(self).tmap().contains_key(p) && !#[trigger] final(self).tmap().contains_key(p) ==> exists|k: &str, v: &mut V| k@ == p && *v == old(self).tmap()[p] && #[trigger] f.ensures((k, v), false),
-    { unimplemented!() }
-    #[verifier::external_body]
-    pub fn is_empty(&self) -> (r: bool) ensures r == (self.tmap().len() == 0) { unimplemented!() }
-}
-//@@ rename IpMatcher Sub
-//@@ item src/router/request_matcher/host.rs :: struct HostMatcher
-
-// holds/uniqueness bookkeeping shared by the paths of HostMatcher::insert
-pub proof fn lemma_host_uniq<T>(o: HostMatcher<T>, n: HostMatcher<T>, rt: RouteRef<T>)
-    requires uniq_ids(o.hs()), forall|x: RouteRef<T>| o.holds(x) ==> rid(*x) != rid(*rt), forall|x: RouteRef<T>| n.holds(x) <==> o.holds(x) || x == rt,
-    ensures uniq_ids(n.hs()),
-{
-    assert forall|x: RouteRef<T>, y: RouteRef<T>| #[trigger] n.hs()(x) && #[trigger] n.hs()(y) && rid(*x) == rid(*y) implies x == y by {
-        assert(n.holds(x) && n.holds(y));
-        if x != rt && y != rt { assert(o.hs()(x) && o.hs()(y)); }
-        else if x != rt { assert(o.holds(x)); } else if y != rt { assert(o.holds(y)); }
-    }
-}
-pub proof fn lemma_host_any_path<T>(o: HostMatcher<T>, n: HostMatcher<T>, rt: RouteRef<T>)
-    requires o.wf(), forall|x: RouteRef<T>| o.holds(x) ==> rid(*x) != rid(*rt),
-        n.static_hosts@ == o.static_hosts@, n.regex_tree_rule.tmap() == o.regex_tree_rule.tmap(), n.any_host.wf(), n.count == o.count + 1, n.any_host.cnt() == o.any_host.cnt() + 1,
-        forall|x: RouteRef<T>| n.any_host.holds(x) <==> o.any_host.holds(x) || x == rt,
-        rhost(*rt) is NoHost || rhost(*rt) == HostKey::Static(Seq::<char>::empty()),
-    ensures n.wf(), forall|x: RouteRef<T>| n.holds(x) <==> o.holds(x) || x == rt,
-{
-    assert forall|x: RouteRef<T>| n.holds(x) <==> o.holds(x) || x == rt by {
-        if n.holds(x) && !n.any_host.holds(x) {
-            if exists|k: String| n.static_hosts@.contains_key(k) && #[trigger] n.static_hosts@[k].holds(x) { let k = choose|k: String| n.static_hosts@.contains_key(k) && #[trigger] n.static_hosts@[k].holds(x); assert(o.static_hosts@[k].holds(x)); }
-            else { let p = choose|p: Seq<char>| n.regex_tree_rule.tmap().contains_key(p) && #[trigger] n.regex_tree_rule.tmap()[p].holds(x); assert(o.regex_tree_rule.tmap()[p].holds(x)); }
-        }
-        if o.holds(x) && !o.any_host.holds(x) {
-            if exists|k: String| o.static_hosts@.contains_key(k) && #[trigger] o.static_hosts@[k].holds(x) { let k = choose|k: String| o.static_hosts@.contains_key(k) && #[trigger] o.static_hosts@[k].holds(x); assert(n.static_hosts@[k].holds(x)); }
-            else { let p = choose|p: Seq<char>| o.regex_tree_rule.tmap().contains_key(p) && #[trigger] o.regex_tree_rule.tmap()[p].holds(x); assert(n.regex_tree_rule.tmap()[p].holds(x)); }
-        }
-    }
-    lemma_host_uniq(o, n, rt);
-    assert forall|x: RouteRef<T>| #[trigger] n.any_host.holds(x) implies (rhost(*x) is NoHost || rhost(*x) == HostKey::Static(Seq::<char>::empty())) by { if x != rt { assert(o.any_host.holds(x)); } }
-}
-
-pub proof fn lemma_host_dyn_path<T>(o: HostMatcher<T>, n: HostMatcher<T>, rt: RouteRef<T>, p: Seq<char>)
-    requires o.wf(), forall|x: RouteRef<T>| o.holds(x) ==> rid(*x) != rid(*rt), rhost(*rt) == HostKey::Dynamic(p),
-        n.static_hosts@ == o.static_hosts@, n.any_host == o.any_host, n.count == o.count + 1,
-        n.regex_tree_rule.tmap() == o.regex_tree_rule.tmap().insert(p, n.regex_tree_rule.tmap()[p]),
-        n.regex_tree_rule.tmap()[p].wf(),
-        forall|x: RouteRef<T>| n.regex_tree_rule.tmap()[p].holds(x) <==> (o.regex_tree_rule.tmap().contains_key(p) && o.regex_tree_rule.tmap()[p].holds(x)) || x == rt,
-        n.regex_tree_rule.tmap()[p].cnt() == (if o.regex_tree_rule.tmap().contains_key(p) { o.regex_tree_rule.tmap()[p].cnt() } else { 0 }) + 1,
-    ensures n.wf(), forall|x: RouteRef<T>| n.holds(x) <==> o.holds(x) || x == rt,
-{
-    let t0 = o.regex_tree_rule.tmap(); let t2 = n.regex_tree_rule.tmap(); let v = t2[p]; let f = cnt_sub::<T>();
-    lemma_msum_insert(t0, f, p, v);
-    if t0.contains_key(p) { lemma_msum_remove(t0, f, p); } else { assert(t0.remove(p) =~= t0); }
-    assert forall|x: RouteRef<T>| n.holds(x) <==> o.holds(x) || x == rt by {
-        if n.holds(x) && !n.any_host.holds(x) {
-            if exists|k: String| n.static_hosts@.contains_key(k) && #[trigger] n.static_hosts@[k].holds(x) { let k = choose|k: String| n.static_hosts@.contains_key(k) && #[trigger] n.static_hosts@[k].holds(x); assert(o.static_hosts@[k].holds(x)); }
-            else { let q = choose|q: Seq<char>| t2.contains_key(q) && #[trigger] t2[q].holds(x); if q != p { assert(t0.contains_key(q) && t0[q] == t2[q]); assert(t0[q].holds(x)); } else if x != rt { assert(t0[p].holds(x)); } }
-        }
-        if o.holds(x) && !o.any_host.holds(x) {
-            if exists|k: String| o.static_hosts@.contains_key(k) && #[trigger] o.static_hosts@[k].holds(x) { let k = choose|k: String| o.static_hosts@.contains_key(k) && #[trigger] o.static_hosts@[k].holds(x); assert(n.static_hosts@[k].holds(x)); }
-            else { let q = choose|q: Seq<char>| t0.contains_key(q) && #[trigger] t0[q].holds(x); assert(t2.contains_key(q)); if q != p { assert(t2[q] == t0[q]); } assert(t2[q].holds(x)); }
-        }
-        if x == rt { assert(t2.contains_key(p) && t2[p].holds(x)); }
-    }
-    lemma_host_uniq(o, n, rt);
-    assert forall|q: Seq<char>| t2.contains_key(q) implies (#[trigger] t2[q]).wf() by { if q != p { assert(t0.contains_key(q) && t0[q] == t2[q]); } }
-    assert forall|q: Seq<char>, x: RouteRef<T>| t2.contains_key(q) && #[trigger] t2[q].holds(x) implies rhost(*x) == HostKey::Dynamic(q) by {
-        if q != p { assert(t0.contains_key(q) && t0[q] == t2[q]); assert(t0[q].holds(x)); } else if x != rt { assert(t0[p].holds(x)); }
-    }
-}
-impl<T> HostMatcher<T> {
-    pub open spec fn holds(&self, x: RouteRef<T>) -> bool {
-        ||| self.any_host.holds(x)
-        ||| exists|k: String| self.static_hosts@.contains_key(k) && #[trigger] self.static_hosts@[k].holds(x)
-        ||| exists|p: Seq<char>| self.regex_tree_rule.tmap().contains_key(p) && #[trigger] self.regex_tree_rule.tmap()[p].holds(x)
-    }
-    pub open spec fn hs(&self) -> spec_fn(RouteRef<T>) -> bool { |x: RouteRef<T>| self.holds(x) }
-    pub open spec fn cnt(&self) -> nat { self.count as nat }
-    pub open spec fn wf(&self) -> bool {
-        &&& self.any_host.wf()
-        &&& forall|k: String| self.static_hosts@.contains_key(k) ==> (#[trigger] self.static_hosts@[k]).wf() && k@.len() > 0
-        &&& forall|p: Seq<char>| self.regex_tree_rule.tmap().contains_key(p) ==> (#[trigger] self.regex_tree_rule.tmap()[p]).wf()
-        &&& self.count == self.any_host.cnt() + msum(self.static_hosts@, cnt_sub::<T>()) + msum(self.regex_tree_rule.tmap(), cnt_sub::<T>())
-        &&& uniq_ids(self.hs())
-        // bucket-key consistency
-        &&& forall|k: String, x: RouteRef<T>| self.static_hosts@.contains_key(k) && #[trigger] self.static_hosts@[k].holds(x) ==> rhost(*x) == HostKey::Static(k@)
-        &&& forall|p: Seq<char>, x: RouteRef<T>| self.regex_tree_rule.tmap().contains_key(p) && #[trigger] self.regex_tree_rule.tmap()[p].holds(x) ==> rhost(*x) == HostKey::Dynamic(p)
-        &&& forall|x: RouteRef<T>| #[trigger] self.any_host.holds(x) ==> (rhost(*x) is NoHost || rhost(*x) == HostKey::Static(Seq::<char>::empty()))
-    }
-    //@@ fn src/router/request_matcher/host.rs :: impl <T>HostMatcher<T> / fn new -> r
-    //@| ensures r.wf(), r.cnt() == 0, forall|x: RouteRef<T>| !r.holds(x),
-    //@| entry broadcast use group_hash_axioms; broadcast use axiom_string_key_model;
-
-    //@@ fn src/router/request_matcher/host.rs :: impl <T>HostMatcher<T> / fn insert
-    //@| requires old(self).wf(), old(self).cnt() < usize::MAX, forall|x: RouteRef<T>| old(self).holds(x) ==> rid(*x) != rid(*route),
-    //@| ensures final(self).wf(), final(self).cnt() == old(self).cnt() + 1, forall|x: RouteRef<T>| final(self).holds(x) <==> old(self).holds(x) || x == route,
-    //@| entry broadcast use group_hash_axioms; broadcast use axiom_string_key_model; broadcast use axiom_borrow_str_contains; broadcast use axiom_borrow_str_maps; broadcast use axiom_borrow_str_upd; broadcast use axiom_borrow_string_upd; broadcast use axiom_arc_cloned;
-    //@|     let ghost m0 = self.static_hosts@; let ghost t0 = self.regex_tree_rule.tmap(); let ghost a0 = self.any_host; let ghost f = cnt_sub::<T>(); let ghost rt = route; let ghost hk = rhost_of(rt);
-    //@|     proof { axiom_string_ext(); self.any_host.lemma_wf(); lit_empty();
-    //@|         match hk { HostKey::Dynamic(p) => { if t0.contains_key(p) { lemma_msum_remove(t0, f, p); t0[p].lemma_wf(); assert forall|x: RouteRef<T>| t0[p].holds(x) implies rid(*x) != rid(*route) by { assert(old(self).holds(x)); } } }, _ => {} } }
-    //@| exit proof {
-    //@|     if hk is NoHost { lemma_host_any_path(*old(self), *self, rt); }
-    //@|     match hk { HostKey::Dynamic(p) => { lemma_host_dyn_path(*old(self), *self, rt, p); }, _ => {} }
-    //@| }
-    //@| before `return;`: proof { assert(static_host@ =~= Seq::<char>::empty()); lemma_host_any_path(*old(self), *self, rt); }
-    //@| after `self.static_hosts.insert(static_host.clone(), IpMatcher::new(self.config.clone()));`: proof {
-    //@|     let key = choose|key: String| key@ == static_host@ && self.static_hosts@.contains_key(key);
-    //@|     assert(self.static_hosts@ == m0.insert(key, self.static_hosts@[key]));
-    //@|     lemma_msum_fresh(m0, f, key, self.static_hosts@[key]);
-    //@| }
-    //@| before `self.static_hosts.get_mut(static_host).unwrap().insert(route.clone());`: let ghost m1 = self.static_hosts@;
-    //@|     proof {
-    //@|         let key = choose|key: String| key@ == static_host@ && m1.contains_key(key);
-    //@|         assert(m1[key].wf());
-    //@|         m1[key].lemma_wf();
-    //@|         lemma_msum_remove(m1, f, key);
-    //@|         assert forall|x: RouteRef<T>| m1[key].holds(x) implies rid(*x) != rid(*route) by { if m0.contains_key(key) { assert(old(self).holds(x)); } }
-    //@|     }
-    //@| after `self.static_hosts.get_mut(static_host).unwrap().insert(route.clone());`: proof {
-    //@|     let key = choose|key: String| key@ == static_host@ && m1.contains_key(key);
-    //@|     let v = self.static_hosts@[key];
-    //@|     assert(self.static_hosts@ == m1.insert(key, v));
-    //@|     lemma_msum_insert(m1, f, key, v);
-    //@|     assert(self.regex_tree_rule.tmap() == t0 && self.any_host == a0);
-    //@|     assert forall|x: RouteRef<T>| self.holds(x) <==> old(self).holds(x) || x == rt by {
-    //@|         if self.holds(x) && !self.any_host.holds(x) && !(exists|p: Seq<char>| t0.contains_key(p) && #[trigger] t0[p].holds(x)) {
-    //@|             let k = choose|k: String| self.static_hosts@.contains_key(k) && #[trigger] self.static_hosts@[k].holds(x);
-    //@|             if k != key { assert(m1[k] == self.static_hosts@[k]); assert(m0.contains_key(k) && m0[k].holds(x)); }
-    //@|             else if x != rt { assert(m1[key].holds(x)); assert(m0.contains_key(key) && m0[key].holds(x)); }
-    //@|         }
-    //@|         if old(self).holds(x) && !a0.holds(x) && !(exists|p: Seq<char>| t0.contains_key(p) && #[trigger] t0[p].holds(x)) {
-    //@|             let k = choose|k: String| m0.contains_key(k) && #[trigger] m0[k].holds(x);
-    //@|             assert(self.static_hosts@.contains_key(k));
-    //@|             if k != key { assert(self.static_hosts@[k] == m0[k]); } else { assert(m1[key] == m0[key]); assert(self.static_hosts@[key].holds(x)); }
-    //@|         }
-    //@|         if x == rt { assert(self.static_hosts@[key].holds(x)); }
-    //@|     }
-    //@|     assert forall|k: String| self.static_hosts@.contains_key(k) implies (#[trigger] self.static_hosts@[k]).wf() && k@.len() > 0 by { if k != key { assert(m1.contains_key(k) && m1[k] == self.static_hosts@[k]); } }
-    //@|     assert forall|k: String, x: RouteRef<T>| self.static_hosts@.contains_key(k) && #[trigger] self.static_hosts@[k].holds(x) implies rhost(*x) == HostKey::Static(k@) by {
-    //@|         if k != key { assert(m1[k] == self.static_hosts@[k]); assert(m0.contains_key(k) && m0[k].holds(x)); }
-    //@|         else if x != rt { assert(m1[key].holds(x)); assert(m0.contains_key(key) && m0[key].holds(x)); }
-    //@|     }
-    //@|     lemma_host_uniq(*old(self), *self, rt);
-    //@| }
-
-    //@@ fn src/router/request_matcher/host.rs :: impl <T>HostMatcher<T> / fn len -> r
-    //@| ensures r == self.cnt(),
-    //@@ fn src/router/request_matcher/host.rs :: impl <T>HostMatcher<T> / fn is_empty -> r
-    //@| ensures r == (self.cnt() == 0),
-}
-//@@ unrename IpMatcher
 
 //@@ strlits
 } // verus!
